@@ -139,7 +139,23 @@ class HarnessError(Exception):
     invalid).  Never reported as a property violation."""
 
 
+_WATCH = {"cpu0": 0.0, "need": 0.0, "rearm": 0, "interval": 0}
+
+
+def _arm(seconds):
+    """arm the watchdog: it fires after `seconds` of wall time, but on a starved machine (other batches, test
+    suites, sub-agents competing for the cores) a run is only declared hung once it has also burnt 60 % of that
+    time as CPU time of its own - the code under test is single-threaded and does no blocking I/O, so a hang is
+    always a busy loop.  At most 20 extensions, then the run counts as hung in any case."""
+    _WATCH.update(cpu0=time.process_time(), need=0.6 * seconds, rearm=0, interval=seconds)
+    signal.alarm(seconds)
+
+
 def _alarm_handler(signum, frame):  # pragma: no cover
+    if time.process_time() - _WATCH["cpu0"] < _WATCH["need"] and _WATCH["rearm"] < 20:
+        _WATCH["rearm"] += 1
+        signal.alarm(_WATCH["interval"])
+        return
     raise WallHang("wall-clock watchdog")
 
 
@@ -149,7 +165,7 @@ RUN_WALL_S = int(os.environ.get("VERIF_RUN_WALL", "120"))
 def guarded_generate(mod, tape, tier):
     """generate under the wall-clock watchdog (a generator looping on a zero tape must not hang the batch)"""
     old = signal.signal(signal.SIGALRM, _alarm_handler)
-    signal.alarm(20)
+    _arm(20)
     try:
         return mod.generate(tape, tier)
     except WallHang:
@@ -163,7 +179,7 @@ def guarded_execute(mod, scenario):
     """Execute one scenario with a wall-clock watchdog.  Returns the result dict of
     the check module; harness problems are returned under key 'harness'."""
     old = signal.signal(signal.SIGALRM, _alarm_handler)
-    signal.alarm(RUN_WALL_S)
+    _arm(RUN_WALL_S)
     try:
         res = mod.execute(scenario)
     except WallHang:
